@@ -2,6 +2,8 @@
 from .. import matrix
 from ..rules import shape, encoding
 
+from ..rules import round5
+
 
 def run(tier, runner):
     pts = [p for p in matrix.vec_points(tier) if p.flavour in ('vector', 'small')]
@@ -26,9 +28,11 @@ def run(tier, runner):
     r_ew.require(10, 'element-adding operations of the dynamic vectors')
     if r_ew.exact_sites < 1:
         r_ew.require(10 ** 9, 'exact capacity requests (reserve must contain one: positive control)')
+    r_sa = round5.shrink_all(progs + real)
+    r_sa.require(1, 'StdVectorBase::shrink_impl')
     return {
-        'results': [r_geo, r_one, r_gg, r_gs, r_ew, r_si, r_gb],
-        'explanation': 'GEO: the return expression of SafeNextCapacity is interpreted in the domain of affine lower bounds a*oldCapa + b*newSize + c '
+        'results': [r_geo, r_one, r_gg, r_gs, r_ew, r_si, r_gb, r_sa],
+        'explanation': 'SHRINK-ALL: amc::vector shrinks whenever size differs from capacity, emptied vectors included.  GEO: the return expression of SafeNextCapacity is interpreted in the domain of affine lower bounds a*oldCapa + b*newSize + c '
                        '(constants fold, +, *k, /k with floor, max = union, min(x,K) = clamp): the verdict needs a bound with a*a >= 2 (today a = 3/2), a '
                        'bound with b >= 1, the clamp equal to numeric_limits<size_type>::max() and the overflow throw; the exact path returns the request. '
                        'ONE-GROW: no capacity adjustment in a loop, at most one per object per path; GROW-SHAPE: one allocator request per grow; '
